@@ -74,6 +74,7 @@ ASSUMPTIONS = [
 CHUNK = 4
 CALL_CPU_LIMIT = 5.0  # seconds of CPU per export/import call (normal: < 0.05 s)
 CASE_WALL_LIMIT = 300.0  # wall-clock backstop per case
+PR_QUICK_WIDTH = 4  # sub-space pitch-range, quick tier: complete block of the 4 highest x the 4 lowest MIDI pitches
 
 _TMP = None
 
@@ -821,6 +822,26 @@ def spaces(tier, seed):
                     "written with naturals and sharps only (the importer's pitch spelling alone decides the re-imported "
                     "spellings); %s; 2 configurations per score (modes, policies cycled; path / returned MidiFile)"
                     % (list(M.SPELL_ALTERS), sp_bounds)))
+    if quick:
+        PB = 8
+        core = M.pitchrange_pairs(PR_QUICK_WIDTH)
+        rest_ = [p for p in M.pitchrange_pairs(8, full=True) if p not in core]
+        pr_pairs = core + [p for p in rest_ if block_of(list(p), PB) == seed % PB]
+        pr_bounds = ("pitch pairs {%d..127} x {0..%d} complete, plus hash block %d of %d of the thorough alphabet"
+                     % (128 - PR_QUICK_WIDTH, PR_QUICK_WIDTH - 1, seed % PB, PB))
+    else:
+        pr_pairs = M.pitchrange_pairs(8, full=True)
+        pr_bounds = ("pitch pairs {120..127} x {0..7}, every pitch 1..127 against pitch 0 and pitch 127 against every "
+                     "pitch 0..126 (every pitch difference 1..127 at both edges of the range)")
+    sp.append(Space("pitch-range", lambda: with_configs(M.gen_pitchrange(pr_pairs), cfg_tickorder), True,
+                    "two notes X, Y of DIFFERENT pitch (pX > pY) sounding together in different homes, over the edges of "
+                    "the MIDI pitch range: %s; X and Y in every ordered pair of different homes of (part 1 voice 1, part 1 "
+                    "voice 2, part 2 voice 1) - the higher pitch in the earlier or the later voice/part, i.e. on the "
+                    "lower or the higher channel - two-part scores flat and with both parts in one group: %d layouts; "
+                    "per score, 3 bars of 4/4, divisions 2: X holding while Y starts and ends, both starting and ending "
+                    "together, staggered overlap, Y holding while X starts and ends; 6 modes (different pitches never "
+                    "collide: every mode is inside the quantifier), policy, minimum_ppq {0,7} and import encoding {as "
+                    "written, zero-velocity note-ons} cycled" % (pr_bounds, len(M.pitchrange_layouts()))))
     sp.append(Space("options", gen_options, True,
                     "3 scores x output {path, returned MidiFile, file object} x input {Score, list, single Part/PartGroup} x "
                     "velocity {default,1,64,100,127} x minimum_ppq {0,1,L,L+1,2L,2L+1,7,480,960}; modes and shift/pad_bar cycled; "
